@@ -304,12 +304,7 @@ func DecodeEntryFrom(r io.Reader) (*Entry, uint32, error) {
 	entry.Meta = header.Meta
 	entry.ExpiresAt = header.ExpiresAt
 
-	if cap(entry.Key) < keyLen {
-		entry.Key = make([]byte, keyLen)
-	} else {
-		entry.Key = entry.Key[:keyLen]
-	}
-	if _, err := io.ReadFull(hashReader, entry.Key); err != nil {
+	if entry.Key, err = readSized(hashReader, entry.Key, keyLen); err != nil {
 		entry.DecrRef()
 		if errors.Is(err, io.EOF) || errors.Is(err, io.ErrUnexpectedEOF) {
 			return nil, 0, ErrPartialEntry
@@ -317,12 +312,7 @@ func DecodeEntryFrom(r io.Reader) (*Entry, uint32, error) {
 		return nil, 0, err
 	}
 
-	if cap(entry.Value) < valueLen {
-		entry.Value = make([]byte, valueLen)
-	} else {
-		entry.Value = entry.Value[:valueLen]
-	}
-	if _, err := io.ReadFull(hashReader, entry.Value); err != nil {
+	if entry.Value, err = readSized(hashReader, entry.Value, valueLen); err != nil {
 		entry.DecrRef()
 		if errors.Is(err, io.EOF) || errors.Is(err, io.ErrUnexpectedEOF) {
 			return nil, 0, ErrPartialEntry
@@ -345,6 +335,36 @@ func DecodeEntryFrom(r io.Reader) (*Entry, uint32, error) {
 
 	recordLen := uint32(headerBytes) + uint32(keyLen) + uint32(valueLen) + crc32.Size
 	return entry, recordLen, nil
+}
+
+// readSized reads exactly n bytes into dst (reusing its capacity).  The declared
+// length n comes from an unverified header, so the buffer grows with the bytes
+// actually delivered (16 KiB first, then doubling) instead of being allocated up front.
+func readSized(r io.Reader, dst []byte, n int) ([]byte, error) {
+	if cap(dst) >= n {
+		dst = dst[:n]
+		_, err := io.ReadFull(r, dst)
+		return dst, err
+	}
+	const firstChunk = 16 << 10
+	dst = dst[:0]
+	for len(dst) < n {
+		step := max(firstChunk, len(dst))
+		if step > n-len(dst) {
+			step = n - len(dst)
+		}
+		if cap(dst)-len(dst) < step {
+			grown := make([]byte, len(dst), len(dst)+step)
+			copy(grown, dst)
+			dst = grown
+		}
+		m, err := io.ReadFull(r, dst[len(dst):len(dst)+step])
+		dst = dst[:len(dst)+m]
+		if err != nil {
+			return dst, err
+		}
+	}
+	return dst, nil
 }
 
 // EstimateEncodeSize estimates the encoded size of an entry in the WAL/value log.
